@@ -267,6 +267,40 @@ class Engine:
                 return k
         return None
 
+
+    # ------------------------------------------------------------------ class-level attributes
+    def class_attr_value(self, owner, name, expr):
+        """Value of a class attribute.  A constant initialiser (number, string, None, bool, name of a class/function,
+        tuple of those) is evaluated; a mutable one (dict/list/set display, a call) is SHARED STATE: one world object
+        per (class, attribute) whose contents are unknown - it may have been filled by earlier calls - and which is
+        not fresh (a store into it is a store into the world, checked against the frame)."""
+        def constant(e):
+            if isinstance(e, ast.Constant):
+                return True
+            if isinstance(e, (ast.Name, ast.Attribute)):
+                return True
+            if isinstance(e, ast.Tuple):
+                return all(constant(x) for x in e.elts)
+            if isinstance(e, ast.UnaryOp):
+                return constant(e.operand)
+            if isinstance(e, ast.BinOp):
+                return constant(e.left) and constant(e.right)
+            return False
+        if constant(expr):
+            return self.eval(expr, Frame({}, module=owner.module, cls=owner))
+        t = z3.Const(f"cattr_{owner.name}_{name}", S.Val)
+        kind = None
+        if isinstance(expr, (ast.Dict, ast.DictComp)) or (isinstance(expr, ast.Call) and isinstance(expr.func, ast.Name) and expr.func.id in ("dict", "OrderedDict", "defaultdict")):
+            kind = "dict"
+        elif isinstance(expr, (ast.List, ast.ListComp)) or (isinstance(expr, ast.Call) and isinstance(expr.func, ast.Name) and expr.func.id == "list"):
+            kind = "list"
+        elif isinstance(expr, (ast.Set, ast.SetComp)) or (isinstance(expr, ast.Call) and isinstance(expr.func, ast.Name) and expr.func.id == "set"):
+            kind = "set"
+        if kind is not None and kind in self.ct.ext:
+            self.run.assume(self.isinstance_expr(t, [self.ct.ext[kind]]))
+        self.run.assumptions_used.add("mutable class-level attributes are shared state of unknown content")
+        return tv_val(t)
+
     # ------------------------------------------------------------------ spec functions
     def _sort_of(self, s):
         return {"val": S.Val, "int": z3.IntSort(), "bool": z3.BoolSort(), "real": z3.RealSort(), "str": z3.StringSort()}[s]
@@ -1102,7 +1136,7 @@ class Engine:
             # class attribute unless shadowed by an instance field
             if attr in self.class_fields(classes[0]):
                 return self.read_field(base, attr)
-            return self.eval(expr, Frame({}, module=owner.module, cls=owner))
+            return self.class_attr_value(owner, attr, expr)
         if kind == "field":
             return self.read_field(base, attr)
         if kind == "external":
@@ -1144,7 +1178,7 @@ class Engine:
             if attr in self.class_fields(cls):
                 if fr is None:
                     return self.read_field(base, attr)
-            return self.eval(r[2], Frame({}, module=r[1].module, cls=r[1]))
+            return self.class_attr_value(r[1], attr, r[2])
         if r[0] == "external":
             if attr in getattr(r[1], "data", ()):
                 return self.read_field(base, attr)
@@ -1475,15 +1509,30 @@ class Engine:
         for p, v in zip(params, args):
             bound[p] = v
         if a.vararg is not None:
-            bound[a.vararg.arg] = TupleVal(args[len(params):], "tuple")
+            rest = args[len(params):]
+            if len(rest) == 1 and isinstance(rest[0], self.B.StarArgs):
+                # f(*xs) with xs symbolic: the callee's *args is that sequence (as a tuple value)
+                sv_ = self.to_tv(rest[0].seq)
+                bound[a.vararg.arg] = sv_
+            else:
+                bound[a.vararg.arg] = TupleVal(rest, "tuple")
         kwargs = dict(kwargs)
+        if "**" in kwargs:
+            fwd = kwargs.pop("**")
+            if a.kwarg is None or kwargs:
+                raise Unsupported(f"**mapping forwarded to {what}")
+            bound[a.kwarg.arg] = self.to_tv(fwd)
+            kwargs = {}
+            a_kwarg_done = True
+        else:
+            a_kwarg_done = False
         for p in params[len(args):]:
             if p in kwargs:
                 bound[p] = kwargs.pop(p)
         for p in [k.arg for k in a.kwonlyargs]:
             if p in kwargs:
                 bound[p] = kwargs.pop(p)
-        if a.kwarg is not None:
+        if a.kwarg is not None and not a_kwarg_done:
             d = self.B.new_dict(self)
             for k, v in kwargs.items():
                 self.B.dict_set(self, d, tv_str(k), self.to_tv(v))
